@@ -49,6 +49,27 @@ func charDerived(v ssa.Value) bool {
 	})
 }
 
+// byteDerived: v is computed from a byte offset into a string: the key of a string range, len(string),
+// or a strings.Index* result.
+func byteDerived(v ssa.Value) bool {
+	return sliceContains(v, func(x ssa.Value) bool {
+		switch y := x.(type) {
+		case *ssa.Extract:
+			if nx, ok := y.Tuple.(*ssa.Next); ok && nx.IsString && y.Index == 1 {
+				return true
+			}
+		case *ssa.Call:
+			if b, ok := y.Call.Value.(*ssa.Builtin); ok && b.Name() == "len" && isStringType(y.Call.Args[0].Type()) {
+				return true
+			}
+			if sc := staticCallee(y); sc != nil && strings.HasPrefix(funcFullName(sc), "strings.Index") {
+				return true
+			}
+		}
+		return false
+	})
+}
+
 func (w *World) builtinClosure(name string) []*ssa.Function {
 	b := w.Facts().Builtins[name]
 	if b == nil {
@@ -228,10 +249,36 @@ func checkC07(w *World) {
 				}
 				okc, why := w.isClamped(b)
 				w.check(P, "R07.3", fmt.Sprintf("substring: %s bound of the slice in %s", which, fn.Name()), sl.Pos(), okc, why)
+				// NaN: every user number feeding the bound must have been tested with IsNaN (false edge) before the slice
+				var roots []ssa.Value
+				backSlice(b, func(v ssa.Value) bool {
+					if _, ok := isMethodCall(v, "Number"); ok {
+						roots = append(roots, v)
+						return false
+					}
+					return true
+				})
+				nanOK := len(roots) > 0
+				for _, root := range roots {
+					tested := false
+					for _, a := range guardAtoms(sl.Block()) {
+						c, ok := a.V.(*ssa.Call)
+						if !ok || a.Pol || staticCallee(c) == nil || funcFullName(staticCallee(c)) != "math.IsNaN" {
+							continue
+						}
+						if sliceContains(c.Call.Args[0], func(v ssa.Value) bool { return v == root }) {
+							tested = true
+						}
+					}
+					if !tested {
+						nanOK = false
+					}
+				}
+				w.check(P, "R07.3", fmt.Sprintf("substring: NaN excluded before the %s bound of the slice in %s", which, fn.Name()), sl.Pos(), nanOK, fmt.Sprintf("every number argument feeding the bound is known not to be NaN at the slice (IsNaN tested on a value computed from it): %v (a clamp maps NaN to 0, so an untested NaN position selects characters instead of nothing)", nanOK))
 			}
 		})
 	}
-	w.floor(P, "R07.3", 2)
+	w.floor(P, "R07.3", 4)
 
 	// R07.4 translate
 	w.translateShape(P, f)
@@ -269,6 +316,13 @@ func (w *World) unitDiscipline(P, bn string, fn *ssa.Function) {
 				if charDerived(b) {
 					n++
 					w.check(P, "R07.1", fmt.Sprintf("%s: %s bound of a string slice in %s", bn, which, fn.Name()), x.Pos(), false, "a Go string is sliced by bytes, but the bound derives from an XPath number / character count: multi-byte characters are split or mis-positioned")
+				}
+			}
+		case *ssa.IndexAddr:
+			if isRuneSlice(x.X.Type()) {
+				if _, isC := constInt(x.Index); !isC && byteDerived(x.Index) && !ascendingCounter(x.Index) {
+					n++
+					w.check(P, "R07.1", fmt.Sprintf("%s: rune slice indexed with a byte offset in %s", bn, fn.Name()), x.Pos(), false, "the index derives from a byte position in a string (string range key, len(string) or strings.Index) but addresses a []rune, whose positions are characters: wrong partner after any multi-byte character")
 				}
 			}
 		case *ssa.Convert:
